@@ -33,12 +33,35 @@ fn main() {
         Some("shard") => run_shard(&args),
         Some("replay") => run_replay(&args[2]),
         Some("selftest") => props::selftest(),
+        Some("c18ref") => c18ref(),
         _ => {
             eprintln!("usage: vpx run <ID> <quick|thorough> | replay <file> | selftest");
             2
         }
     };
     std::process::exit(code);
+}
+
+mod c18 {
+    include!("c18cfg.rs");
+}
+
+/// serial (feature-less build) reference files for every C18 configuration
+fn c18ref() -> i32 {
+    let mut m = serde_json::Map::new();
+    for c in c18::configs18() {
+        match c18::encode18(&c) {
+            Ok(b) => {
+                m.insert(c.name.clone(), json!(core::hex(&b)));
+            }
+            Err(e) => {
+                eprintln!("MACHINERY: serial reference for {} fails: {e}", c.name);
+                return 2;
+            }
+        }
+    }
+    std::fs::write(Path::new(VERIF).join("target").join("c18ref.json"), serde_json::to_vec(&Value::Object(m)).unwrap()).unwrap();
+    0
 }
 
 fn seed() -> u64 {
